@@ -319,7 +319,11 @@ fn check_uses(lib: &Library, bytes: &[u8]) -> Result<u64, Fail> {
                             }
                             n += 1;
                             match types[*id].uses.get(local) {
-                                None => return Err(("C08/use-provenance-lost".into(), format!("`{name}` has `use {src_path}.{{{orig}{}}}` and exports `{local}`, but the decoded interface records no provenance for it", rename.as_ref().map(|r| format!(" as {r}")).unwrap_or_default()))),
+                                None => {
+                                    // what is used may itself be an alias of a named type of the source interface
+                                    let alias_of_named = lib.apis[from.0].ifaces[from.1].items.iter().any(|x| matches!(x, Item::Type { name, def: TypeDef::Alias(Ty::Named(_)) } if name == orig));
+                                    return Err((if alias_of_named { "C08/use-provenance-lost:used-alias-of-named-type".to_string() } else { "C08/use-provenance-lost".to_string() }, format!("`{name}` has `use {src_path}.{{{orig}{}}}` and exports `{local}`, but the decoded interface records no provenance for it", rename.as_ref().map(|r| format!(" as {r}")).unwrap_or_default())));
+                                }
                                 Some(u) => {
                                     let got_src = types[u.interface].id.clone().unwrap_or_default();
                                     // through a chain of `use`s the provenance may name the syntactic source or any
